@@ -98,6 +98,8 @@ def _hash_tree():
 def _hash_shim():
     h = hashlib.sha256()
     for f in sorted(os.listdir(SHIM_DIR)):
+        if f.startswith("vf_x_"):
+            continue    # extras are built separately (see _ensure_extras)
         with open(os.path.join(SHIM_DIR, f), "rb") as fh:
             h.update(f.encode() + b"\0" + fh.read())
     with open(os.path.abspath(__file__), "rb") as fh:
@@ -154,6 +156,7 @@ def ensure(cfg, quiet=True):
         want = stamp_for(cfg)
         sf = os.path.join(d, "vf.stamp")
         if os.path.exists(sf) and open(sf).read().strip() == want:
+            _ensure_extras(cfg)
             return d
         t0 = time.time()
         shutil.rmtree(d, ignore_errors=True)
@@ -176,6 +179,7 @@ def ensure(cfg, quiet=True):
         _build_shim(cfg, log)
         with open(sf, "w") as fh:
             fh.write(want)
+        _ensure_extras(cfg)
         if not quiet:
             print("[build] %s built in %.1fs" % (cfg, time.time() - t0), file=sys.stderr)
         return d
@@ -257,7 +261,6 @@ def _build_shim(cfg, log):
     else:
         fl = ["-O1", "-g", "-D" + GUARD]
     srcs = [os.path.join(SHIM_DIR, "vf_shim.c"), os.path.join(SHIM_DIR, "vf_errprog.c")]
-    srcs += sorted(os.path.join(SHIM_DIR, f) for f in os.listdir(SHIM_DIR) if f.startswith("vf_x_") and f.endswith(".c"))
     if c.get("fi"):
         fl = fl + ["-DVF_FI=1"]
     cmdfi = ["gcc", "-std=gnu11", "-w", "-O1", "-g", "-fPIC", "-shared", os.path.join(SHIM_DIR, "vf_fi.c"),
@@ -277,6 +280,53 @@ def _build_shim(cfg, log):
         rc, out = _run(cmd, log=log)
         if rc != 0:
             raise RuntimeError("trace recorder build failed:\n" + out[-3000:])
+
+
+def _shim_flags(cfg):
+    c = CONFIGS[cfg]
+    san = c.get("san", "asan")
+    if san == "asan":
+        fl = [f for f in c["cflags"].split() if not f.startswith(("-Dmalloc", "-Dcalloc", "-Drealloc", "-Dposix_memalign"))]
+    elif san == "thread":
+        fl = TSAN.split()
+    else:
+        fl = ["-O1", "-g", "-D" + GUARD]
+    return fl
+
+
+def _ensure_extras(cfg):
+    """Each shim/vf_x_<name>.c becomes its own libvfx_<name>.so; a failing extra only affects its user."""
+    d = builddir(cfg)
+    inc = ["-I" + d, "-I" + os.path.join(d, "include"), "-I" + os.path.join(REPO, "include"),
+           "-I" + os.path.join(REPO, "include", "low"), "-I" + os.path.join(REPO, "src")]
+    for f in sorted(os.listdir(SHIM_DIR)):
+        if not (f.startswith("vf_x_") and f.endswith(".c")):
+            continue
+        name = f[5:-2]
+        src = os.path.join(SHIM_DIR, f)
+        h = hashlib.sha256(open(src, "rb").read() + open(os.path.join(d, "vf.stamp"), "rb").read()).hexdigest()
+        st = os.path.join(d, "vfx_%s.stamp" % name)
+        out = os.path.join(d, "libvfx_%s.so" % name)
+        if os.path.exists(st) and open(st).read().strip() == h and os.path.exists(out):
+            continue
+        cmd = ["gcc", "-std=gnu11", "-w", "-fPIC", "-shared"] + _shim_flags(cfg) + inc + [src] + \
+              ["-L" + os.path.join(d, "lib"), "-lrelic", "-Wl,-rpath," + os.path.join(d, "lib"), "-lpthread", "-o", out]
+        rc, o = _run(cmd, log=os.path.join(d, "vf_build.log"))
+        if rc != 0:
+            if os.path.exists(out):
+                os.unlink(out)
+            with open(os.path.join(d, "vfx_%s.err" % name), "w") as fh:
+                fh.write(o)
+            print("[build] extra shim %s failed to compile for %s (see %s)" % (f, cfg, os.path.join(d, "vfx_%s.err" % name)),
+                  file=sys.stderr)
+            continue
+        with open(st, "w") as fh:
+            fh.write(h)
+
+
+def extra_libs(cfg):
+    d = builddir(cfg)
+    return sorted(os.path.join(d, f) for f in os.listdir(d) if f.startswith("libvfx_") and f.endswith(".so"))
 
 
 def san_env(cfg, extra=None):
